@@ -275,7 +275,7 @@ def run_schedule(binp, case, d):
                 drain(0.5)
                 if not ready:
                     idle_rounds += 1
-                    if idle_rounds >= 6:
+                    if idle_rounds >= 12:
                         log(["stuck", sorted(c for c in state if state[c] == "blocked")])
                         break
         stuck = trace and trace[-1][0][0] == "stuck"
@@ -297,7 +297,7 @@ def run_schedule(binp, case, d):
                     go(c)
                     if state[c] == "blocked":
                         # nobody else is alive: a blocked retry creator is a hang
-                        if not wait_for(c, 3.0):
+                        if not wait_for(c, 8.0):
                             log(["stuck", [c]])
                             break
                 else:
